@@ -172,15 +172,21 @@ def choose_series(seed):
     """first geometry seed (deterministic in VERIF_SEED) for which the low angle limit excludes some but not
     all interfaces in every frame (steering only: TLC's vacuity guards decide whether the stale-exclusion
     scenario is reachable in the model instantiated with this series)"""
+    first = None
     with core.quiet_stdout():
         for g in range(100 * seed, 100 * seed + 50):
             sd = series_desc(g)
             st = _struct_job(sd)
+            if first is None:
+                first = (sd, st)
             ok = all(all(0 < len(f["excl"]["low"][fit]) < len(f["internal"]) - 2 for fit in FITS) and
                      all(len(f["excl"]["pi"][fit]) == 0 for fit in FITS) for f in st["frames"])
             if ok:
                 return sd, st
-    raise core.MachineryFailure("no series geometry with a partial low-limit exclusion found")
+    # never happens on a tree whose angle-limit rule works (C16 owns that); on a tree where it does not, the histories
+    # are still replayed on the first geometry with whatever exclusion sets the code produces
+    print("NOTE: no series geometry with a partial low-limit exclusion found; using the first geometry")
+    return first
 
 
 def quotient(st):
